@@ -281,7 +281,7 @@ Fixpoint seval (e : expr) (fr : frame) (g : glob) {struct e} : res eout :=
                       | Some (o, g') => Res o fr g'
                       | None => Fuel
                       end
-                  | None => Res (EX (err "argument not passed")) fr g
+                  | None => Res (EX (VErr "argument not passed")) fr g
                   end
               | Res (inr x) fr g => Res (EX x) fr g
               | Fuel => Fuel
@@ -342,7 +342,7 @@ with seval_nargs (ok : string -> list (string * value) -> bool) (xs : list strin
           match seval e fr g with
           | Res (EV v) fr g =>
               if ok x seen then seval_nargs ok xr (seen ++ [(x, v)])%list r fr g
-              else Res (inr (err "named parameter")) fr g
+              else Res (inr (VErr "named parameter")) fr g
           | Res (EX w) fr g => Res (inr w) fr g
           | Fuel => Fuel
           end
